@@ -97,13 +97,15 @@ def check_bank(rec, st, blz, acct):
     got = api(rec, blz, acct)
     if got is None:
         return None, m
+    if m is not None and m in st.get("unreferenced", ()):
+        return None, m
     if m is None or m not in st["impl"]:
         if got is not True:
             rec.fail(f"unlisted_or_unimplemented_rejected|{m}", "de_unlisted_accepted", {"bank_code": blz, "account": acct},
                      True, got)
         return True, m
     if m not in ode.METHODS:
-        raise HarnessError(f"method DE:{m} is implemented by the tree but has no reference (unreferenced method)")
+        return None, m      # implemented by the tree, no reference here: not judged
     want = ode.ref(m, acct)
     if want is not None and got is not want:
         rec.fail(f"{m}|dispatch|{'false_accept' if got else 'false_reject'}", "de_api_iff_reference",
@@ -220,7 +222,11 @@ def run(ctx):
     st = state()
     missing = [m for m in st["impl"] if m not in ode.METHODS]
     if missing:
-        raise HarnessError(f"unreferenced method(s) implemented by the tree: {missing}")
+        # a method the tree implements but this harness has no reference for: not judged (reported, never a pass by silence)
+        ctx.rec.notes.append(f"methods implemented by the tree without a reference here, NOT judged: {missing}")
+        ctx.rec.excluded["methods without reference: " + ",".join(missing)] += 1
+        st["impl"] = [m for m in st["impl"] if m in ode.METHODS]
+        st["unreferenced"] = set(missing)
     ctx.rule = ("(i) every implemented method x accounts: uniform 10-digit, short (1-9 significant digits), +-2 around documented "
                 "boundaries, 'directed' = random body x all 10 values of each candidate check position (7, 8, 10) so that "
                 "remainders 0/1/10 are hit per body [thorough: plus the complete range 0..999,999]; judged through the "
